@@ -249,6 +249,10 @@ def stretch_some(rng, prog):
     def rw(s):
         if not isinstance(s, tuple):
             return s
+        if s[0] == "gate" and s[1].startswith("I_") and s[1][2:] in gateset_sig.RAW and s[1][2:] not in gateset_sig.BUSY and rng.random() < 0.5:
+            # the stretched variant of an idle gate is an idle gate
+            n[0] += 1
+            return ("gate", s[1] + gateset_sig.STRETCH_SUFFIX) + s[2:] + (rng.choice([0.0, 0.5, 2.5]),)
         if s[0] == "gate" and s[1] in gateset_sig.RAW and gateset_sig.RAW[s[1]][1] is not None and rng.random() < 0.5:
             n[0] += 1
             return ("gate", s[1] + gateset_sig.STRETCH_SUFFIX) + s[2:] + (rng.choice([0.0, 0.5, 1.0, 2.5, 7.0]),)
